@@ -67,6 +67,40 @@ def sharded(chk):
         chk.violation('sharded:workers-left-acquired', f'[{name}]', ctx)
 
 
+def two_aggregating_stages(chk):
+  """A chain of two named stages that both aggregate, sharded over a worker pool."""
+  for workers, shards, n in ((2, 2, 4), (1, 3, 5), (2, 1, 3)):
+    name = f'two aggregating stages workers={workers} shards={shards} n={n}'
+    ref = lib.two_agg_pipeline(n).make().iterate()
+    ref_outs = sorted(ref)
+    ref_agg = {k: sorted(v) for k, v in dict(ref.agg_result).items()}
+    with dist.cluster(workers) as c:
+      rq = queue.SimpleQueue()
+      outs = []
+
+      def run():
+        for x in c.mods.orchestrate.sharded_pipelines_as_iterator(c.pool, lib.two_agg_pipeline, n, result_queue=rq, num_shards=shards):
+          outs.append(x)
+        return True
+
+      status, val = dist.run_with_deadline(run, 30)
+      chk.replayed()
+      ctx = dict(kind='dist-faultfree', scenario=name)
+      if status != 'ok':
+        chk.violation(f'two-aggs:{status}', f'[{name}] {val!r}', ctx)
+        continue
+      if sorted(outs) != ref_outs:
+        chk.violation('two-aggs:outputs', f'[{name}] {sorted(outs)} != {ref_outs}', ctx)
+      try:
+        res = rq.get(timeout=5)
+      except queue.Empty:
+        chk.violation('two-aggs:no-final-aggregate', f'[{name}] the run ended normally but no AggregateResult was delivered', ctx)
+        continue
+      got = {k: sorted(v) for k, v in dict(res.agg_result).items()}
+      if got != ref_agg:
+        chk.violation('two-aggs:aggregate', f'[{name}] {got} != in-process {ref_agg}', ctx)
+
+
 def interleaved(chk):
   from ml_metrics._src.chainables import orchestrate
   for n in (0, 1, 4) if chk.tier == 'quick' else (0, 1, 2, 4, 7):
@@ -199,6 +233,7 @@ def body(chk):
   if not mc.ok:
     chk.machinery_failure(f'Sched.tla fault-free fails {mc.error_name}')
   sharded(chk)
+  two_aggregating_stages(chk)
   interleaved(chk)
   interleaved_remote(chk)
   strict_merge(chk)
